@@ -56,11 +56,11 @@ def run(idx, rep, tier):
     safediv.r_selected_component(idx, rep)
     safediv.r_sqrtdomain(idx, rep, modules=["distance3d.distance"], floor=8, unknown_ceiling=8)
     mods = [x.name for x in idx.lib_modules() if x.name.startswith("distance3d.distance")]
-    loops.r_loop(idx, rep, mods, rule="R-HANG", floor=18, allowed=("CAP", "STRUCT"))
+    loops.r_loop(idx, rep, mods, rule="R-HANG", floor=12, allowed=("CAP", "STRUCT"))
     it = e1(idx)
     eager.r_eager(idx, rep, it, caller_filter=lambda f: f.module.name.startswith("distance3d.distance"), floor=30, unknown_ceiling=12)
     fr_rets = e2(idx)
-    frame.r_frame(idx, rep, fr_rets, modules=set(mods) | {"distance3d.utils"}, floor=40)
+    frame.r_frame(idx, rep, fr_rets, modules=set(mods) | {"distance3d.utils"}, floor=25)
     frame.r_frame_contracts(idx, rep, fr_rets, ("distance", "utils"), floor=8, unknown_ceiling=4)
     # only the RETURN degrees belong to C10 (a squared distance or a direction in a point slot breaks |p1-p2| = d); inner
     # inhomogeneities are C11/C12 matter (the fixed line_to_circle error kept its points on the primitives)
